@@ -1268,7 +1268,19 @@ def find_decoder_fns(ctx):
     return d4 or None, ds or None
 
 
-CLAIM_DRAFT = None
+CLAIM = {
+    "text": "Static necessary conditions of the streaming base64 codec, decided from the current source facts: the encoder alphabet equals "
+            "RFC 4648 Table 1 and the decode table inverts it ('=' -> 0) for all 64 rows; every character emitted by Base64Encoder::write and by "
+            "the 1/2/3-octet shapes of finish, and every byte produced by the decoder's 4->3 function, has exactly the RFC 4648 bit provenance "
+            "(24 bits per quantum, zero fill, '=' padding whose count agrees with the decoder's size-from-padding function); on MIR the carry "
+            "index is stored-at/advanced/reset exactly at 3 after the quantum is written, read copies min(available, room), fill stores the "
+            "decoded prefix at the buffered size, the inner Read::read obeys the short-read rule, and the not-a-multiple-of-four error exists, "
+            "is guarded by 0 < count < 4, cannot be avoided by a partial quantum and is propagated. Numeric bounds / panic-freedom (absint "
+            "obligations) and the behaviour of arbitrary inner readers/writers beyond these shapes are not decided.",
+    "technique": "exhaustive const-table comparison with an RFC 4648 reference, per-bit provenance (bitflow) over a symbolic walk of the syn tree, "
+                 "MIR CFG rules (dominators, natural loops, value origins, edge dominance)",
+    "design_ref": "DESIGN.md §5 C14",
+}
 
 
 def run(ctx):
